@@ -78,10 +78,17 @@ for _l in (1, 2, 3, 4):
       defines=['CASE_BCD=0', 'CASE_LEN=%d' % _l], props=('C06', 'C10', 'C20'), cost=60 + 20 * _l)
     for _f in range(8):
         _fl = _BCD | (_REV if _f & 1 else 0) | (_REQ if _f & 2 else 0) | (_HCD if _f & 4 else 0)
-        R('readRawValue_bcd_f%02x_len%d' % (_fl, _l), 'h_readRawValue_b2', None, unwind=5,
-          defines=['CASE_FLAGS=0x%x' % _fl, 'CASE_LEN=%d' % _l], props=('C05', 'C10', 'C20'), cost=10, tier='quick' if _f in (0, 5) else 'thorough')
-        R('writeRawValue_bcd_f%02x_len%d' % (_fl, _l), 'h_writeRawValue_b2', None, unwind=5, unwindset={'vsym_resize.0': SS_CAP + 1},
-          defines=['CASE_FLAGS=0x%x' % _fl, 'CASE_LEN=%d' % _l], props=('C06', 'C10', 'C20'), cost=40, tier='quick' if _f in (0, 5) else 'thorough')
+        # measured: BCD read len 2 ~50 s, len 3 ~1000 s, len 4 ~1200 s; BCD write len >= 2 did not finish in 3000 s
+        # (division by powers of 100) and is therefore NOT claimed (DESIGN.md 5, C06 residue)
+        if _l <= 2:
+            R('readRawValue_bcd_f%02x_len%d' % (_fl, _l), 'h_readRawValue_b2', None, unwind=5,
+              defines=['CASE_FLAGS=0x%x' % _fl, 'CASE_LEN=%d' % _l], props=('C05', 'C10', 'C20'), cost=50, tier='quick' if _f in (0, 5) else 'thorough')
+        elif _f in (0, 5):
+            R('readRawValue_bcd_f%02x_len%d' % (_fl, _l), 'h_readRawValue_b2', None, unwind=5, timeout=3000,
+              defines=['CASE_FLAGS=0x%x' % _fl, 'CASE_LEN=%d' % _l], props=('C05', 'C10', 'C20'), cost=1000, tier='thorough')
+        if _l == 1:
+            R('writeRawValue_bcd_f%02x_len%d' % (_fl, _l), 'h_writeRawValue_b2', None, unwind=5, unwindset={'vsym_resize.0': SS_CAP + 1},
+              defines=['CASE_FLAGS=0x%x' % _fl, 'CASE_LEN=%d' % _l], props=('C06', 'C10', 'C20'), cost=40, tier='quick' if _f in (0, 5) else 'thorough')
 for _c, _n in ((0, 'int'), (3, 'exp')):
     R('parseInput_' + _n, 'h_parseInput', 'NDT_parseInput', ['NDT_checkValueRange'], defines=['CASE_PI=%d' % _c], props=('C07', 'C12', 'C20'), cost=100)
     R('parseInput_b2_' + _n, 'h_parseInput_b2', None, defines=['CASE_PI=%d' % _c], props=('C07', 'C12', 'C20'), cost=100, tier='thorough')
@@ -93,5 +100,6 @@ for _d in [2, 16, 256] + [10 ** k for k in range(1, 10)] + [-(10 ** k) for k in 
       props=('C07', 'C12', 'C20'), cost=200, tier='quick' if _d in _QUICK_DIVS else 'thorough')
 for _b in (0, 1):
     for _l in (1, 2, 3, 4):
-        R('roundtrip_bcd%d_len%d' % (_b, _l), 'h_roundtrip', None, defines=['CASE_BCD=%d' % _b, 'CASE_LEN=%d' % _l], unwind=5, props=('C06',), cost=10)
+        if (_b, _l) != (1, 4):   # BCD 4 bytes: did not finish in 3000 s
+            R('roundtrip_bcd%d_len%d' % (_b, _l), 'h_roundtrip', None, defines=['CASE_BCD=%d' % _b, 'CASE_LEN=%d' % _l], unwind=5, props=('C06',), cost=10 if (_b, _l) != (1, 3) else 60)
 R('calcPrecision', 'h_calcPrecision', 'NDT_calcPrecision', unwind=12, props=('C05', 'C20'), cost=2)
